@@ -254,7 +254,7 @@ pub fn check(case: &Case) -> Verdict {
     };
     // the chosen unit and the amount depend on the operands only
     let h = crate::hist::mix(&[crate::hist::mix_str(&amt::key(a)), crate::hist::mix_str(&amt::key(b)), oc.ua as u64, oc.ub as u64, oc.form as u64]);
-    if h % 4 == 0 {
+    if h % 16 == 0 {
         if let Some(m) = crate::hist::independent(h, &|| crate::hist::show_q((o.run)(oc.form, (a, oc.ua), (b, oc.ub)))) {
             fail!("{}: {}", note, m);
         }
